@@ -5,7 +5,7 @@
 # Use while long runs are exploring the real /repo. (The registered commands themselves never use this.)
 P=$(readlink -f "$1"); shift
 WT=/var/tmp/iso_wt_$$
-CA=/var/tmp/iso_cache
+CA=${ISO_CACHE:-/var/tmp/iso_cache}
 git -C /repo worktree add --detach "$WT" HEAD >/dev/null 2>&1 || { echo "cannot create worktree"; exit 1; }
 trap 'git -C /repo worktree remove --force "$WT" >/dev/null 2>&1; git -C /repo worktree prune' EXIT
 git -C "$WT" apply "$P" || { echo "patch does not apply"; exit 1; }
